@@ -7,7 +7,7 @@ fn epoch_to_timestamp<V: ValT>(v: &V) -> Result<Timestamp, Error<V>> {
     let range = || Error::str(format_args!("timestamp {v} is out of range"));
     let val = match v.as_isize() {
         Some(i) => (i as i64).checked_mul(1000000).ok_or_else(range)?,
-        None => (finite(v)? * 1000000.0) as i64,
+        None => (finite(v)? * 1000000.0).round() as i64,
     };
     Timestamp::from_microsecond(val).map_err(Error::str)
 }
@@ -43,7 +43,7 @@ fn array_to_datetime<V: ValT>(v: &[V]) -> Option<Result<DateTime, jiff::Error>> 
         i8(min)?,
         // the `as i8` cast saturates, returning a number in the range [-128, 128]
         sec.floor() as i8,
-        (sec.fract() * 1e9) as i32,
+        ((sec.fract() * 1e9).round() as i32).min(999_999_999),
     ))
 }
 
@@ -81,7 +81,7 @@ pub fn to_iso8601<V: ValT>(v: &V) -> Result<String, Error<V>> {
     let ts = if let Some(i) = v.as_isize() {
         Timestamp::from_second(i as i64)
     } else {
-        Timestamp::from_microsecond((finite(v)? * 1e6) as i64)
+        Timestamp::from_microsecond((finite(v)? * 1e6).round() as i64)
     };
     Ok(ts.map_err(Error::str)?.to_string())
 }
